@@ -125,3 +125,93 @@ func genSlowSealCase(seed int64, w *bufio.Writer) {
 	emit("state 0")
 	emit("state 1")
 }
+
+// `h-cons gen cons-longlag 1 1`: three of four equal validators advance beyond frame 105 while the
+// fourth stays at frame 1; its next event is then offered with claimed frames around the +100 cap of
+// Build: processing must accept every allowed claim (also more than 100 above the self-parent's
+// frame), reject claims above the highest allowed frame, and Build must stop at +100.
+func init() {
+	Register("cons-longlag", &Stream{Gen: genLongLag, NewRunner: func() Runner { return newConsRunner() }})
+}
+
+func genLongLag(_ *Rand, n int, tier string, w *bufio.Writer) {
+	gr := newConsRunner()
+	emit := func(format string, a ...interface{}) (res string) {
+		line := fmt.Sprintf(format, a...)
+		fmt.Fprintln(w, line)
+		defer func() {
+			if p := recover(); p != nil {
+				res = "panic"
+			}
+		}()
+		return gr.Step(line)
+	}
+	fmt.Fprintln(w, "# case longlag")
+	emit("vals 1:1 2:1 3:1 4:1")
+	emit("inst 0 3")
+	emit("inst 1 1")
+	type head struct{ n, seq, lamport uint64 }
+	next := uint64(1)
+	emit("build 0 %d c=4 s=1 l=1 p=-", next)
+	emit("process 0 %d", next)
+	lag := head{next, 1, 1}
+	next++
+	heads := map[int]*head{}
+	frame := uint64(0)
+	for cnt := 0; frame < 106 && cnt < 2000; cnt++ {
+		self := cnt % 3
+		seq, lamport := uint64(1), uint64(1)
+		var ps []string
+		if sp := heads[self]; sp != nil {
+			seq, lamport = sp.seq+1, sp.lamport+1
+			ps = append(ps, fmt.Sprint(sp.n))
+		}
+		for other := 0; other < 3; other++ {
+			if other == self || heads[other] == nil {
+				continue
+			}
+			ps = append(ps, fmt.Sprint(heads[other].n))
+			if lamport <= heads[other].lamport {
+				lamport = heads[other].lamport + 1
+			}
+		}
+		if cnt == 5 {
+			ps = append(ps, fmt.Sprint(lag.n))
+		}
+		pj := strings.Join(ps, ",")
+		if pj == "" {
+			pj = "-"
+		}
+		res := emit("build 0 %d c=%d s=%d l=%d p=%s", next, self+1, seq, lamport, pj)
+		fmt.Sscanf(res, "frame=%d", &frame)
+		emit("process 0 %d", next)
+		heads[self] = &head{next, seq, lamport}
+		next++
+	}
+	lamport := lag.lamport + 1
+	ps := []string{fmt.Sprint(lag.n)}
+	for other := 0; other < 3; other++ {
+		ps = append(ps, fmt.Sprint(heads[other].n))
+		if lamport <= heads[other].lamport {
+			lamport = heads[other].lamport + 1
+		}
+	}
+	pj := strings.Join(ps, ",")
+	emit("build 0 %d c=4 s=2 l=%d p=%s keep=0", next, lamport, pj)
+	next++
+	for _, claim := range []uint64{200, frame + 1, 99, 101, frame, 102} {
+		// twins of the lagging validator's second event; instance 1 sees only the last one
+		emit("ev %d e=1 c=4 s=2 l=%d f=%d p=%s", next, lamport, claim, pj)
+		emit("process 0 %d", next)
+		next++
+	}
+	for i := uint64(1); i < next; i++ {
+		if i < next-6 || i == next-1 {
+			emit("process 1 %d", i)
+		}
+	}
+	emit("allblocks 0")
+	emit("allblocks 1")
+	emit("state 0")
+	emit("state 1")
+}
